@@ -229,4 +229,71 @@ def WFE {R : Type} : List (List UInt8 × Prim R) → Prop
   | (k, v) :: rest => PdfLex.utf8Valid k = true ∧ WF v ∧ WFE rest
 end
 
+
+mutual
+/-- the keys of every dictionary are distinct (the value is a value of the object model: an `IndexMap`) -/
+def KeysDistinct {R : Type} : Prim R → Prop
+  | .arr xs => KeysDistinctL xs
+  | .dict kvs => KeysDistinctE kvs ∧ (keysOf kvs).Nodup
+  | .stream info _ => KeysDistinctE info ∧ (keysOf info).Nodup
+  | _ => True
+def KeysDistinctL {R : Type} : List (Prim R) → Prop
+  | [] => True
+  | x :: xs => KeysDistinct x ∧ KeysDistinctL xs
+def KeysDistinctE {R : Type} : List (List UInt8 × Prim R) → Prop
+  | [] => True
+  | (_, v) :: rest => KeysDistinct v ∧ KeysDistinctE rest
+end
+
+mutual
+/-- every name and every dictionary key is valid UTF-8 (what `Name = SmallString` can hold) -/
+def namesUtf8 {R : Type} : Prim R → Bool
+  | .name s => PdfLex.utf8Valid s
+  | .arr xs => namesUtf8L xs
+  | .dict kvs => namesUtf8E kvs
+  | .stream info _ => namesUtf8E info
+  | _ => true
+def namesUtf8L {R : Type} : List (Prim R) → Bool
+  | [] => true
+  | x :: xs => namesUtf8 x && namesUtf8L xs
+def namesUtf8E {R : Type} : List (List UInt8 × Prim R) → Bool
+  | [] => true
+  | (k, v) :: rest => PdfLex.utf8Valid k && namesUtf8 v && namesUtf8E rest
+end
+
+mutual
+theorem wf_of {R : Type} (v : Prim R) : KeysDistinct v → namesUtf8 v = true → WF v := by
+  intro h1 h2
+  cases v with
+  | name s => simpa [WF, namesUtf8] using h2
+  | arr xs => simp only [KeysDistinct] at h1; simp only [namesUtf8] at h2; simp only [WF]; exact wfL_of xs h1 h2
+  | dict kvs =>
+    simp only [KeysDistinct] at h1; simp only [namesUtf8] at h2; simp only [WF]
+    exact ⟨wfE_of kvs h1.1 h2, h1.2⟩
+  | stream info inner =>
+    simp only [KeysDistinct] at h1; simp only [namesUtf8] at h2; simp only [WF]
+    exact ⟨wfE_of info h1.1 h2, h1.2⟩
+  | null => simp [WF]
+  | int i => simp [WF]
+  | real r => simp [WF]
+  | bool b => simp [WF]
+  | str s => simp [WF]
+  | ref a b => simp [WF]
+theorem wfL_of {R : Type} (xs : List (Prim R)) : KeysDistinctL xs → namesUtf8L xs = true → WFL xs := by
+  intro h1 h2
+  cases xs with
+  | nil => simp [WFL]
+  | cons x xs =>
+    simp only [KeysDistinctL] at h1; simp only [namesUtf8L, Bool.and_eq_true] at h2; simp only [WFL]
+    exact ⟨wf_of x h1.1 h2.1, wfL_of xs h1.2 h2.2⟩
+theorem wfE_of {R : Type} (kvs : List (List UInt8 × Prim R)) : KeysDistinctE kvs → namesUtf8E kvs = true → WFE kvs := by
+  intro h1 h2
+  cases kvs with
+  | nil => simp [WFE]
+  | cons kv kvs =>
+    obtain ⟨k, v⟩ := kv
+    simp only [KeysDistinctE] at h1; simp only [namesUtf8E, Bool.and_eq_true] at h2; simp only [WFE]
+    exact ⟨h2.1.1, wf_of v h1.1 h2.1.2, wfE_of kvs h1.2 h2.2⟩
+end
+
 end PdfSyntax
